@@ -54,3 +54,19 @@ def f12_irregular_spacing() -> bool:
 def f17_zid_before_modify_date() -> bool:
     err = _create_and_compare({"a.zo": "# T 2024-01-05\n\n- 240229 foo\n"})
     return bool(err) and "modify" in err
+
+
+def f18_mdate_equals_create_date() -> bool:
+    import datetime as dt
+    import logging
+    import random
+
+    logging.disable(logging.CRITICAL)
+    from checks import c11
+
+    class R(random.Random):
+        def random(self):
+            return 0.1  # always the "append a word" edit
+
+    err = c11.run_history({"a.zo": "# T\n\n- 220615 220615#oK bar\n"}, R(1), [dt.date(2024, 3, 1), dt.date(2024, 3, 2)])
+    return bool(err) and "body" in err
